@@ -32,7 +32,7 @@ struct Injection {
     at_end_of_file: bool,
 }
 
-const KINDS: [Injection; 11] = [
+const KINDS: [Injection; 12] = [
     Injection { text: "let inj_q0 = zz_undefined + 1\n", message: Some("Could not resolve identifier"), exact: Some("zz_undefined"), starts_with: None, within: None, at_end_of_file: false },
     Injection { text: "let inj_q1 = 1\ninj_q1 = 2\n", message: Some("Can't modify immutable variable"), exact: Some("inj_q1"), starts_with: None, within: Some("inj_q1 = 2"), at_end_of_file: false },
     Injection { text: "break\n", message: Some("must be in a loop"), exact: Some("break"), starts_with: None, within: None, at_end_of_file: false },
@@ -44,6 +44,7 @@ const KINDS: [Injection; 11] = [
     Injection { text: "fn inj_f8(a: int, b: int) -> int {\n  a + b\n}\nlet inj_q8 = inj_f8(1)\n", message: None, exact: None, starts_with: None, within: None, at_end_of_file: false },
     Injection { text: "let inj_q9 = \"a\\qb\"\n", message: Some("Unrecognized escape sequence"), exact: None, starts_with: None, within: Some("\"a\\qb\""), at_end_of_file: false },
     Injection { text: "let inj_q10 = (1 +", message: None, exact: None, starts_with: None, within: None, at_end_of_file: true },
+    Injection { text: "let inj_q11 = \"caf\\é and \\日\"\n", message: Some("Unrecognized escape sequence"), exact: None, starts_with: None, within: Some("\"caf\\é and \\日\""), at_end_of_file: false },
 ];
 
 /// (source, byte offset where the injected text starts)
@@ -101,7 +102,7 @@ impl Prop for DiagnosticRanges {
         "diagnostic_ranges"
     }
     fn rule(&self) -> &'static str {
-        "one case = a valid generated program with one injected error of 11 classes (unresolved identifier, assignment to let, break outside a loop, non-exhaustive match, redundant arm, unrecognized token, unknown named argument, type conflict, missing argument, bad escape sequence, unexpected end of file) at a generated top-level position, optionally preceded by non-ASCII comment and string text; every diagnostic from check_lsp().errors() must name a loaded file, lie within that file, have start <= end and sit on char boundaries; for the unambiguous classes the primary range must be exactly the identifier / token / keyword, start at `match`, or lie inside the offending string literal; non-trivial = multi-byte characters precede the error site; distinct by (program, injection)"
+        "one case = a valid generated program with one injected error of 12 classes (unresolved identifier, assignment to let, break outside a loop, non-exhaustive match, redundant arm, unrecognized token, unknown named argument, type conflict, missing argument, bad escape sequence, bad escape of a multi-byte character, unexpected end of file) at a generated top-level position, optionally preceded by non-ASCII comment and string text; every diagnostic from check_lsp().errors() must name a loaded file, lie within that file, have start <= end and sit on char boundaries; for the unambiguous classes the primary range must be exactly the identifier / token / keyword, start at `match`, or lie inside the offending string literal; non-trivial = multi-byte characters precede the error site; distinct by (program, injection)"
     }
     fn n_cases(&self, tier: Tier) -> u32 {
         tier.pick(3000, 50000)
